@@ -4406,7 +4406,11 @@ def unify_chunks(*args, **kwargs):
     for a, ind in arginds:
         if ind is not None:
             nameinds.append((a.name, ind))
-            blockdim_dict[a.name] = a.chunks
+            # An axis of length 1 broadcasts against the other arrays: whatever
+            # (zero-width) chunks it carries must not take part in the common chunking
+            blockdim_dict[a.name] = tuple(
+                (1,) if s == 1 else c for s, c in zip(a.shape, a.chunks)
+            )
             max_parts = max(max_parts, a.npartitions)
         else:
             nameinds.append((a, ind))
